@@ -139,7 +139,27 @@ func session(i int) (*packet.Session, *sess.RecConn) {
 		}
 	}()
 	sessions[i], conns[i] = s, conn
+	settleGoroutines()
 	return s, conn
+}
+
+// settleGoroutines waits until the number of goroutines has stopped changing.  sess.New stops the timers of the new
+// session (minute loop, NIC monitor): their goroutines END a moment later.  Apply decides that "the senders the
+// handler started are gone" by comparing runtime.NumGoroutine() with its value before the call, so a timer goroutine
+// that ends during the first DISCOVER on a new session hides the sender of the forged DECLINE: the wait ends at
+// once, the DECLINE is written during a later step and the side-frame oracle reports it against that step (bO: seen
+// once under load, on the first history of a replay; the same history passes when replayed again).
+func settleGoroutines() {
+	last, same := runtime.NumGoroutine(), 0
+	for deadline := time.Now().Add(3 * time.Second); same < 40 && time.Now().Before(deadline); {
+		runtime.Gosched()
+		time.Sleep(500 * time.Microsecond)
+		if n := runtime.NumGoroutine(); n == last {
+			same++
+		} else {
+			last, same = n, 0
+		}
+	}
 }
 
 type World struct {
